@@ -281,17 +281,23 @@ class Runner:
         self.pending = []
         self.minimised = False
 
-    def one(self, case, route, stream, live=None, replay=None, shrink=None, live_scalars=None):
-        """-> (first failed clause or None, the routed implementation used)"""
+    def one(self, case, route, stream, live=None, replay=None, shrink=None, live_scalars=None, impl=None, allow=(), model=True, lab=None):
+        """-> (first failed clause or None, the routed implementation used)
+        round 5 (harness/c16_edge.py): `impl` = a prepared stand-in (container kinds, fault), `allow` = exception classes the
+        stream's fault rule accepts, `model=False` = numbers beyond the driver's integers (oracle only), `lab` = labels that
+        also cover nested values"""
         ck, c16 = self.ck, self.c16
         kind = case[0]
-        RI = RoutedImpl(self.I, self.ql, route, live, live_scalars)
+        RI = impl or RoutedImpl(self.I, self.ql, route, live, live_scalars)
         ck.count("stream:" + stream)
         ck.count("route:" + route)
         ck.count(f"{stream}:{kind}")
         try:
-            wire, outview, bad, nontrivial, canon = c16.run_case(case, RI, self.lab, ck)
+            wire, outview, bad, nontrivial, canon = c16.run_case(case, RI, lab or self.lab, ck)
         except Exception as ex:  # the statement says these functions return
+            if allow and isinstance(ex, tuple(allow)) and getattr(RI, "raised", None) is ex:
+                ck.count(f"{stream}:raises {type(ex).__name__} (allowed by the fault rule)")
+                return None, RI
             d = replay() if replay else dict(c16.describe(case), route=route)
             ck.failing_input(f"C16:{kind} raises", f"[{stream}/{route}] {kind} raises {type(ex).__name__}: {ex}", d)
             return f"{kind} raises", RI
@@ -307,8 +313,9 @@ class Runner:
                 self.minimised = self.minimised or live is not None
                 bad, d = shrink(bad, d)
             ck.failing_input("C16:" + bad.split(":")[0], f"[{stream}/{route}] " + bad, d)
-        self.pending.append((case if len(case[-1]) < 100 else (kind, "... %d events" % len(case[-1])), route, stream,
-                             common.sx(wire), outview, replay))
+        if model:
+            self.pending.append((case if len(case[-1]) < 100 else (kind, "... %d events" % len(case[-1])), route, stream,
+                                 common.sx(wire), outview, replay))
         return bad, RI
 
     def alone(self, case, route):
@@ -400,6 +407,13 @@ def run(ck, c16, I, lab, have_driver, cases):
         routes = (["registry"] + (["direct"] if rng.random() < 0.34 else [])) if quick else list(TX.ROUTES)
         for route in routes:
             R.one(case, route, "big", replay=lambda case=case, route=route: big_replay(c16, case, route))
+    try:
+        from . import c16_edge          # round 5: containers, data dict types, numeric extremes, faults
+        c16_edge.run(R, cases)
+    except Exception as ex:  # noqa: BLE001    a tree on which the edge streams cannot even run: the tie is not established
+        import traceback
+        ck.disagreement("edge streams", f"harness/c16_edge.py could not complete against this tree: {type(ex).__name__}: {str(ex)[:200]}",
+                        {"traceback": traceback.format_exc()[-1500:]})
     t_model = time.time()
     R.compare_with_model()
     TX.prefer_session_failure(ck)
